@@ -922,6 +922,11 @@ func (g *GoFakeS3) initiateMultipartUpload(bucket, object string, w http.Respons
 		return err
 	}
 
+	// The key limit of PutObject holds for an object assembled from parts too.
+	if len(object) > KeySizeLimit {
+		return ResourceError(ErrKeyTooLong, object)
+	}
+
 	uploadID, err := g.uploader.CreateMultipartUpload(bucket, object, meta)
 	if err != nil {
 		return err
